@@ -105,3 +105,40 @@ func VerifC18_HpackCross() {
 	}
 	verif.Cover("end")
 }
+
+// VerifC18_HpackLengths: header values whose length sits at the boundaries of
+// the HPACK length encoding (one octet up to 126, then 7-bit groups: 127,
+// 128, 254..257, 16510, 16511) - concrete content that is not Huffman
+// coded - cross the two implementations in both directions unchanged.
+func VerifC18_HpackLengths() {
+	verif.NoPanic()
+	L := []int{126, 127, 128, 254, 255, 256, 257, 16510, 16511}[verif.Choose("length", 9)]
+	val := make([]byte, L)
+	for i := range val {
+		val[i] = 0x01 // a 23-bit Huffman code: the raw form is shorter, so it is what both encoders emit
+	}
+	f := zzField{name: "x", value: string(val)}
+	for dir := 0; dir < 2; dir++ {
+		var wire bytes.Buffer
+		var got []zzField
+		var err, cerr error
+		if dir == 0 {
+			enc := mhpack.NewEncoder(&wire)
+			verif.Assert(enc.WriteField(mhpack.HeaderField{Name: f.name, Value: f.value}) == nil, "encoder refused a field")
+			dec := xhpack.NewDecoder(4096, func(h xhpack.HeaderField) { got = append(got, zzField{h.Name, h.Value, h.Sensitive}) })
+			dec.SetMaxStringLength(1 << 20)
+			_, err = dec.Write(wire.Bytes())
+			cerr = dec.Close()
+		} else {
+			enc := xhpack.NewEncoder(&wire)
+			verif.Assert(enc.WriteField(xhpack.HeaderField{Name: f.name, Value: f.value}) == nil, "encoder refused a field")
+			dec := mhpack.NewDecoder(4096, func(h mhpack.HeaderField) { got = append(got, zzField{h.Name, h.Value, h.Sensitive}) })
+			dec.SetMaxStringLength(1 << 20)
+			_, err = dec.Write(wire.Bytes())
+			cerr = dec.Close()
+		}
+		verif.Assert(err == nil && cerr == nil, "the peer's decoder rejects a block the encoder produced")
+		verif.Assert(len(got) == 1 && got[0].name == f.name && got[0].value == f.value, "header block decodes to a different list on the other side")
+	}
+	verif.Cover("end")
+}
